@@ -91,32 +91,40 @@ def build_tool(name):
     return out, o
 
 
-def coq_project():
-    """(Re)generate _CoqProject and Makefile when the file list changes."""
+def coq_project(tag="all", dirs=None):
+    """(Re)generate _CoqProject.<tag> / Makefile.<tag> listing only the given
+    directories (default: all), so that a broken file of one property cannot
+    disturb the dependency scan of another."""
     files = []
     for d in sorted(os.listdir(COQ)):
         p = os.path.join(COQ, d)
-        if not os.path.isdir(p):
+        if not os.path.isdir(p) or (dirs is not None and d not in dirs):
             continue
         for f in sorted(os.listdir(p)):
             if f.endswith(".v") and not f.startswith("Extract") and not f.startswith("Cases"):
                 files.append(d + "/" + f)
     text = "-Q . PV\n-arg -w -arg -notation-overridden,-deprecated-hint-without-locality,-deprecated-instance-without-locality\n" + "\n".join(files) + "\n"
-    cp = os.path.join(COQ, "_CoqProject")
+    cp = os.path.join(COQ, "_CoqProject." + tag)
+    mk = "Makefile." + tag
     old = open(cp).read() if os.path.exists(cp) else None
-    if old != text or not os.path.exists(os.path.join(COQ, "Makefile")):
+    if old != text or not os.path.exists(os.path.join(COQ, mk)):
         with open(cp, "w") as f:
             f.write(text)
-        rc, o = run(["coq_makefile", "-f", "_CoqProject", "-o", "Makefile"], cwd=COQ)
+        rc, o = run(["coq_makefile", "-f", "_CoqProject." + tag, "-o", mk], cwd=COQ)
         if rc != 0:
             raise RuntimeError("coq_makefile failed: " + o)
+    return mk
 
 
-def coq_make(targets, timeout=1500):
+def coq_make(targets, timeout=1500, tag="all", dirs=None):
     with Lock("coq"):
-        coq_project()
-        rc, o = run(["make", "-j16"] + targets, cwd=COQ, timeout=timeout)
+        mk = coq_project(tag, dirs)
+        rc, o = run(["make", "-f", mk, "-j16"] + targets, cwd=COQ, timeout=timeout)
     return rc, o
+
+
+def prop_dirs(pid, prop):
+    return ["Lib", prop.get("coq_dir", pid)] + list(prop.get("coq_deps", []))
 
 
 ASSUME_RE = re.compile(r"Print Assumptions\s+([A-Za-z0-9_'.]+)\s*\.")
@@ -150,7 +158,7 @@ def coq_property(pid, prop):
         if m:
             res["broken"].append("forbidden construct %r in %s" % (m.group(0), os.path.relpath(gf, VERIF)))
     # build deps + the property .vo
-    rc, o = coq_make([cdir + "/Property.vo"])
+    rc, o = coq_make([cdir + "/Property.vo"], tag=pid, dirs=prop_dirs(pid, prop))
     res["log"] = o[-6000:]
     if rc != 0:
         m = re.search(r'File "\./([^"]+)", line (\d+)', o)
@@ -229,7 +237,7 @@ def build_modelrun(pid, prop):
     src = open(ext).read()
     mods = re.findall(r"\b(Lib\.[A-Za-z0-9_]+|C\d+\.[A-Za-z0-9_]+)", strip_comments(src))
     targets = sorted(set(m.replace(".", "/") + ".vo" for m in mods))
-    rc, o = coq_make(targets)
+    rc, o = coq_make(targets, tag=pid, dirs=prop_dirs(pid, prop))
     if rc != 0:
         return None, "model dependencies do not compile:\n" + o[-3000:]
     vos = [os.path.join(COQ, t) for t in targets]
@@ -305,7 +313,7 @@ def compare(bdir, modelrun, limit=20):
                            preexec_fn=lambda: __import__("resource").setrlimit(__import__("resource").RLIMIT_STACK, (-1, -1)) if False else None)
     mism = []
     n = 0
-    with open(cases) as fc, open(impl) as fi, open(model) as fm:
+    with open(cases, errors="replace") as fc, open(impl, errors="replace") as fi, open(model, errors="replace") as fm:
         for lc, li in zip(fc, fi):
             lm = fm.readline()
             n += 1
